@@ -1297,7 +1297,7 @@ LEAF_SCALARS = ["int", "int", "str", "bool", "float", "bytes", "None", "Any", "o
 ITER_ORIGINS = ["list", "list", "tuple", "set", "frozenset", "deque", "Sequence", "MutableSequence", "Iterable",
                 "Collection", "Reversible", "AbstractSet", "MutableSet"]
 DICT_ORIGINS = ["dict", "dict", "Mapping", "MutableMapping", "defaultdict", "ordereddict"]
-MODEL_KINDS = ["dc", "dc", "dc", "nt", "td", "attrs"]
+MODEL_KINDS = ["dc", "dc", "nt", "td", "attrs"]
 OTHER_SCALAR = {"int": "str", "str": "int", "bool": "str", "float": "int", "bytes": "str", "None": "int",
                 "Any": "int", "object": "int", "IE": "E", "E": "IE", "datetime": "str", "date": "datetime",
                 "PA": "PB", "PB": "int", "IntList": "int"}
@@ -1416,7 +1416,7 @@ def _edit_here(draw, spec):  # noqa: C901, PLR0911, PLR0912, PLR0915
     k = spec[0]
     generic = ["wrap_optional", "wrap_union", "to_any", "wrap_ann", "wrap_list", "to_scalar"]
     if k == "sc":
-        ops = [*generic, "to_super", "to_super", "to_other", "to_other", "to_object"]
+        ops = [*generic, "to_super", "to_super", "to_other", "to_other", "to_other", "to_object"]
     elif k == "nt":
         ops = [*generic, "nt_base", "nt_base"]
     elif k == "lit":
@@ -1607,7 +1607,7 @@ def st_case(draw, avoid_known=None):
         names = draw(st.lists(st.sampled_from(FIELD_NAMES), min_size=n, max_size=n, unique=True))
         src = model("Src", [(nm, draw(st_spec(max_depth - 1, avoid_known=avoid_known))) for nm in names])
     dst = src
-    for _ in range(draw(st.sampled_from([0, 1, 1, 1, 2, 2, 3]))):
+    for _ in range(draw(st.sampled_from([0, 1, 1, 2, 2, 2, 3]))):
         cand = _edit(draw, dst)
         if well_formed(cand):
             dst = cand
